@@ -8,10 +8,19 @@ def accessVerdict (cfg : Config) (now : Time) (q : IntrospectReq) (st : Store) :
   match q.token.sig.bind (alookup st.access) with
   | none => .error .request_unauthorized
   | some r =>
-    if expiredAt r.sess.expAccess r.requestedAt cfg.atLife now then .error .token_expired
-    else if !q.token.exact then .error .token_signature_mismatch
+    if !(atCheck1 cfg r q.token.exact now).1 then .error (atCheck1 cfg r q.token.exact now).2
+    else if !(atCheck2 cfg r q.token.exact now).1 then .error (atCheck2 cfg r q.token.exact now).2
     else if !matchScopes cfg r.grantedScopes q.scopes then .error .invalid_scope
     else .ok r
+
+/-- both checks pass exactly for an unexpired exact copy, whatever the strategy -/
+theorem atChecks_iff (cfg : Config) (r : Req) (exact : Bool) (now : Time) :
+    ((atCheck1 cfg r exact now).1 = true ∧ (atCheck2 cfg r exact now).1 = true) ↔
+      (accessExpired cfg r now = false ∧ exact = true) := by
+  unfold atCheck1 atCheck2
+  by_cases hj : cfg.jwtAccess = true
+  · simp [hj]; exact And.comm
+  · simp [hj]
 
 /-- the refresh-token validator as a function of the store -/
 def refreshVerdict (cfg : Config) (now : Time) (q : IntrospectReq) (st : Store) : Except Err Req :=
@@ -85,13 +94,13 @@ theorem run_introspectAccess (rc : RunCfg) (hp : Plain rc) (cfg : Config) (now :
     simp only at hres
     refine ⟨fun x hx => ?_, fun hne => absurd hres (hne r)⟩
     rw [hres] at hx; cases hx
-    by_cases h1 : expiredAt r.sess.expAccess r.requestedAt cfg.atLife now = true
-    · simp [h1, hss]
-    · by_cases h2 : q.token.exact = true
+    by_cases h1 : (atCheck1 cfg r q.token.exact now).1 = true
+    · by_cases h2 : (atCheck2 cfg r q.token.exact now).1 = true
       · by_cases h3 : matchScopes cfg r.grantedScopes q.scopes = true
         · simp [h1, h2, h3, hss]
         · simp [h1, h2, h3, hss]
       · simp [h1, h2, hss]
+    · simp [h1, hss]
 
 theorem run_introspectRefresh (rc : RunCfg) (hp : Plain rc) (cfg : Config) (now : Time) (q : IntrospectReq) (rs : RState) :
     (run rc rs (introspectRefresh cfg now q).toProg).1.ss = rs.ss ∧
